@@ -39,6 +39,13 @@ pub fn term(w: &mut Rng, scope: &[VarIx], depth: u32) -> T {
     if depth == 0 || w.chance(1, 2) {
         return leaf(w, scope);
     }
+    if w.chance(1, 6) {
+        // compound term (`#[compound] struct Pair(LTerm, LTerm)` / `Duo`)
+        let kind = if w.chance(3, 4) { 0 } else { 1 };
+        let a = term(w, scope, depth - 1);
+        let b = term(w, scope, depth - 1);
+        return T::cmp(kind, a, b);
+    }
     let n = w.below(3);
     let items: Vec<T> = (0..n).map(|_| term(w, scope, depth - 1)).collect();
     if n > 0 && w.chance(1, 5) {
